@@ -482,6 +482,23 @@ fn seeded(out: &mut Vec<Pending>, src: &str, ds: &PartialDSet, rng: &mut Rng, ro
             if collapse_terminates(ds, &rem, c) {
                 case_collapse(out, src, ds, rem, c);
             }
+            // a random set closed under the connector: the inner while loops walk several steps
+            {
+                let c = rng.below(4);
+                let mut rem: Vec<usize> = vec![];
+                for _ in 0..(1 + rng.below(6)) {
+                    let d = pick(rng);
+                    rem.push(d);
+                    rem.push(o(ds, c, d));
+                }
+                let distinct: std::collections::BTreeSet<usize> = rem.iter().cloned().collect();
+                if distinct.len() < n && collapse_terminates(ds, &rem, c) {
+                    let tags = format!("nt closed-under-connector src={} {}", src, size_tag(ds.size()));
+                    let d = ds.clone();
+                    let input = format!("{} {} {}", enc_ds(ds), enc_list(&rem), c);
+                    pend(out, "collapse", &tags, input, move || enc_oo(hk::collapse(&d, rem, c)));
+                }
+            }
             if round == 0 {
                 case_collapse(out, src, ds, vec![], 3);
                 case_collapse(out, src, ds, (1..=n).collect(), 3);
@@ -740,26 +757,34 @@ fn input_cases(out: &mut Vec<Pending>, src: &str, hyp: usize, cov: &Tab, rng: &m
     if !in_domain(cov) {
         return;
     }
+    // all Spec cases first: their ids do not depend on the HashSet-order dependent replay below
     case_simplify(out, src, hyp, cov);
     let rens = renumberings(cov, rng, nren);
     for r in &rens {
         case_simplify(out, src, hyp, r);
     }
+    // the same manifold with a finer decomposition (outside the quantifier of the property
+    // unless the group is finite: only the manifold clauses are asked of it; the point is to
+    // drive the rewriting primitives along their other paths for the model comparison)
+    let mut subs: Vec<Tab> = vec![];
     if do_replay {
-        replay(out, src, &tab_to_ds(cov), rng, full_limit, max_steps);
-        // the same manifold with a finer decomposition (outside the quantifier of the property
-        // unless the group is finite: only the manifold clauses are asked of it; the point is to
-        // drive the rewriting primitives along their other paths for the model comparison)
         for _ in 0..2 {
             let steps = 1 + rng.below(4);
             if let Some(sub) = subdivide(cov, rng, steps) {
                 if sub.size <= 400 {
-                    let h = if hyp == 1 { 1 } else { 0 };
-                    let tag = format!("{}-subdivided", src);
-                    case_simplify(out, &tag, h, &sub);
-                    replay(out, &tag, &tab_to_ds(&sub), rng, full_limit, max_steps);
+                    subs.push(sub);
                 }
             }
+        }
+    }
+    let tag = format!("{}-subdivided", src);
+    for sub in &subs {
+        case_simplify(out, &tag, if hyp == 1 { 1 } else { 0 }, sub);
+    }
+    if do_replay {
+        replay(out, src, &tab_to_ds(cov), rng, full_limit, max_steps);
+        for sub in &subs {
+            replay(out, &tag, &tab_to_ds(sub), rng, full_limit, max_steps);
         }
     }
 }
@@ -981,8 +1006,8 @@ fn main() {
                     return out;
                 }
                 let ds = tab_to_ds(&t);
-                direct(&mut out, "crafted", &ds, full_limit);
                 case_simplify(&mut out, "crafted", 1, &t);
+                direct(&mut out, "crafted", &ds, full_limit);
                 replay(&mut out, "crafted", &ds, &mut rng, full_limit, max_steps);
                 out
             });
